@@ -240,7 +240,23 @@ func genCursorCase(withFaults bool) *rapid.Generator[CursorCase] {
 		}
 		// consumer script
 		total := c.World.Files * c.World.Blocks * c.World.Rows
-		switch unif(t, "script", 15) {
+		switch unif(t, "script", 16) {
+		case 15:
+			// blocks of exactly five 64-row batches on a small budget: after a stall
+			// every worker is parked on the full row buffer with its budget slot
+			// handed back. The consumer then reads up to the FIRST row of a new batch
+			// (taking that batch un-parks one worker, which goes for its slot again)
+			// and terminates at that very moment.
+			c.World = CursorWorldSpec{Files: pick(t, "pfiles", []int{2, 3}), Blocks: pick(t, "pblocks", []int{2, 3}), Rows: 320}
+			c.Query = pick(t, "pquery", []string{"all", "token"})
+			c.QConc = pick(t, "pqconc", []int{1, 2, 3})
+			c.LatencyUs = 0
+			c.IterGate = -1
+			c.Faults = nil
+			c.Steps = append(c.Steps, CursorStep{Op: "next", N: 1}, CursorStep{Op: "stall", Ms: rapid.IntRange(3, 30).Draw(t, "pstall")},
+				CursorStep{Op: "next", N: 64 * rapid.IntRange(1, 3).Draw(t, "pbatches")}, CursorStep{Op: pick(t, "pterm", []string{"close", "close", "cancel"})})
+			c.Repeat = 12
+			return c
 		case 14:
 			// many candidate files on a small budget and a consumer that stops
 			// reading: the pipeline backs up all the way to the stage that pulls
